@@ -108,6 +108,9 @@ func writeEvidence(p string, spec *propSpec, tier string, seed uint64, a *sim.Ag
 		},
 	}
 	dir := filepath.Join(verifDir(), "evidence")
+	if d := os.Getenv("VERIF_EVIDENCE_DIR"); d != "" {
+		dir = d // scratch runs against mutated copies must not touch the real evidence
+	}
 	os.MkdirAll(dir, 0o755)
 	b, err := json.MarshalIndent(ev, "", " ")
 	if err != nil {
